@@ -38,7 +38,7 @@ def install_cbc():
     return out
 
 
-def gen_instance(rng, graph=None, max_comps=6, max_agents=4, tiny=False, asymmetric_routes=False):
+def gen_instance(rng, graph=None, max_comps=6, max_agents=4, tiny=False, asymmetric_routes=False, secp_hint_p=0.4):
     graph = graph or rng.choice(list(GRAPHS))
     case = gen.gen_case(rng, min_vars=1, max_vars=3 if tiny else 5, max_dom=2, palettes=("ties",), max_space=64,
                         var_costs=False, binary_only=(graph == "ordered_graph"), nary=not tiny,
@@ -100,7 +100,7 @@ def gen_instance(rng, graph=None, max_comps=6, max_agents=4, tiny=False, asymmet
     if rng.random() < 0.35 and names:
         for n in rng.sample(names, min(len(names), rng.randint(1, 2))):
             hints["must_host"].setdefault(rng.choice(agents), []).append(n)
-    if graph == "factor_graph" and case["constraints"] and rng.random() < 0.4:
+    if graph == "factor_graph" and case["constraints"] and rng.random() < secp_hint_p:
         # SECP-like "model" hint: a factor hosted with one of the variables of its scope
         c = rng.choice(case["constraints"])
         hints["host_with"][c["name"]] = [rng.choice(c["scope"])]
